@@ -16,10 +16,11 @@
    [quiet tr]      no cluster mutation and no hook watch in tr; [storage_only tr]: no cluster
                    call at all; [nowatch tr]: no hook watch. *)
 From Helm Require Props.Skeleton. (* effect skeleton tied to /repo by the translator: notes/SKEL.md *)
-From Coq Require Import List String Bool ZArith Permutation Sorted.
+From Coq Require Import List String Ascii Bool ZArith Permutation Sorted.
 From Helm Require Import Engine.Types Engine.Eff Engine.Ops Engine.Cluster Engine.Seq
   Engine.HooksProofsSort Engine.HooksProofsTrace Engine.HooksProofsOrder Engine.HooksProofsGate
-  Engine.HooksProofsExamples.
+  Engine.HooksProofsExamples Engine.HookMeta Engine.HookMetaProofs Gen.Events.
+From Helm Require Text.Classify.
 Import ListNotations.
 Local Open Scope string_scope.
 
@@ -276,3 +277,168 @@ Example C12_pre_gate_example :
   ~ In (CCreate [stamp "rel" "default" (mkRes "ConfigMap" "a" [("d:k", "v1")])] true) (cview (snd gate_run)).
 Proof. exact gate_example_all. Qed.
 Print Assumptions C12_pre_gate_example.
+
+(* ------------------------------------------------------------------ *)
+(* from the annotation STRINGS to the hooks that run (Engine/HookMeta.v) *)
+
+(* Vocabulary (Engine/HookMeta.v, HookMetaProofs.v; parsing = C08's transcription of
+   manifestFile.sort, Text/Classify.v):
+   [weight_of s]        calculateHookWeight on the annotation string s: strconv.Atoi, any error = 0;
+   [wf_int s]           s is an optional single '+' / '-' followed by one or more decimal digits
+                        (nothing else: no space, no underscore, no 0x / 0o / 0b prefix);
+   [int_val s]          its decimal value ([dec_val]: positional, most significant digit first);
+   [in_int z]           -2^63 <= z <= 2^63-1;
+   [doc_hook r]         the release.Hook manifestFile.sort makes of the document r (a resource whose
+                        fields carry its annotations as "a:<key>"), None when it is not a hook or an
+                        event name is unknown; [engine_hook r h] its record for [exec_hook];
+   [hooks_of_docs]      the hooks of a rendered chart; [weight_annotation r] the helm.sh/hook-weight
+                        annotation of r, "" when there is none;
+   [created tr]         the resources of the creation requests of a trace, in order;
+   [doc_le a b]         weight_of (weight_annotation a) < weight_of (weight_annotation b), or equal
+                        and not (name b < name a). *)
+
+(* for EVERY string: the decimal value when the string is an optionally signed run of digits
+   within the range of int, 0 otherwise *)
+Theorem C12_weight_of_annotation :
+  forall s : string,
+    weight_of s = if (wf_int s && in_int (int_val s))%bool then int_val s else 0%Z.
+Proof. exact weight_of_spec. Qed.
+Print Assumptions C12_weight_of_annotation.
+
+Theorem C12_atoi :
+  forall s : string,
+    Classify.atoi_z s = if (wf_int s && in_int (int_val s))%bool then Some (int_val s) else None.
+Proof. exact atoi_spec. Qed.
+Print Assumptions C12_atoi.
+
+(* decimal means decimal: a digit appended multiplies by ten, a leading zero changes nothing *)
+Theorem C12_decimal_value :
+  forall s c, dec_val (s ++ String c EmptyString) = (10 * dec_val s + digit_z c)%Z.
+Proof. exact dec_val_snoc. Qed.
+Print Assumptions C12_decimal_value.
+
+Theorem C12_weight_leading_zero :
+  forall s, all_digits s = true -> s <> EmptyString -> weight_of (String "0"%char s) = weight_of s.
+Proof. exact weight_of_leading_zero. Qed.
+Print Assumptions C12_weight_leading_zero.
+
+Example C12_weight_examples :
+  map weight_of ["5"; "+5"; "-5"; "-0"; "007"; "010"; "08"; "09"; "-08"; " 5"; "5 "; "0x10"; "0o7"; "0b1"; "1_0";
+                 "1e3"; "1.5"; ""; "-"; "+"; "+-5"; "--5"; "abc";
+                 "9223372036854775807"; "9223372036854775808"; "-9223372036854775808"; "-9223372036854775809";
+                 "000000000000000000000000000007"]
+  = [5; 5; -5; 0; 7; 10; 8; 9; -8; 0; 0; 0; 0; 0; 0;
+     0; 0; 0; 0; 0; 0; 0; 0;
+     9223372036854775807; 0; -9223372036854775808; 0;
+     7]%Z.
+Proof. exact weight_examples. Qed.
+Print Assumptions C12_weight_examples.
+
+(* what manifestFile.sort makes of a hook document *)
+Theorem C12_doc_hook :
+  forall r : res,
+    doc_hook r =
+    match ann_of r with
+    | [] => None
+    | ann =>
+        match Common.Assoc.aget hook_annotation ann with
+        | None => None
+        | Some types =>
+            match Classify.parse_events (Classify.split_comma types) with
+            | None => None
+            | Some evs =>
+                Some (Classify.mkHook (r_name r) (r_kind r) "" "" evs (Classify.hook_weight ann)
+                        (Classify.annotation_values ann hook_delete_annotation)
+                        (Classify.annotation_values ann hook_output_log_annotation))
+            end
+        end
+    end.
+Proof. exact doc_hook_spec. Qed.
+Print Assumptions C12_doc_hook.
+
+(* every hook the engine runs is made of a document of the chart, with the weight its
+   helm.sh/hook-weight annotation spells (a missing annotation counts as "") *)
+Theorem C12_hook_weight_from_annotation :
+  forall h docs,
+    In h (hooks_of_docs docs) ->
+    In (h_res h) docs /\ h_weight h = weight_of (weight_annotation (h_res h)).
+Proof. exact hooks_of_docs_weight. Qed.
+Print Assumptions C12_hook_weight_from_annotation.
+
+(* no event is lost or invented between the parsed hook and the engine's record; obligation on
+   the table regenerated from manifest_sorter.go: every value of [events] is one of the nine *)
+Theorem C12_events_table :
+  forallb (fun kv => match event_of_string (snd kv) with Some _ => true | None => false end) hook_events = true.
+Proof. exact events_table_known. Qed.
+Print Assumptions C12_events_table.
+
+Theorem C12_hook_events_from_annotation :
+  forall r h, doc_hook r = Some h -> map event_str (h_events (engine_hook r h)) = Classify.hk_events h.
+Proof. exact engine_hook_events. Qed.
+Print Assumptions C12_hook_events_from_annotation.
+
+(* hooks.go decides over the parsed policy STRINGS (default before-hook-creation only when the
+   list is empty); the engine's record decides the same whenever the annotation is absent or
+   names a known policy ... *)
+Theorem C12_delete_policy_from_annotation :
+  forall r h p,
+    policy_expressible (Classify.hk_delete h) = true ->
+    has_policy (engine_hook r h) p = real_has_policy (Classify.hk_delete h) p.
+Proof. exact engine_hook_has_policy. Qed.
+Print Assumptions C12_delete_policy_from_annotation.
+
+(* ... the hypothesis is needed: an annotation of unknown tokens only switches the default off in
+   hooks.go (observation, confirmed on the real code by the parse-level correspondence; such hooks
+   are kept out of the executed histories) *)
+Example C12_unknown_policy_only_refuted :
+  let r := mkRes "ConfigMap" "hx" [("a:helm.sh/hook", "pre-install"); ("a:helm.sh/hook-delete-policy", "foo")] in
+  exists h, doc_hook r = Some h /\ Classify.hk_delete h = ["foo"] /\ policy_expressible (Classify.hk_delete h) = false /\
+    real_has_policy (Classify.hk_delete h) BeforeHookCreation = false /\
+    has_policy (engine_hook r h) BeforeHookCreation = true.
+Proof. exact unknown_only_not_expressible. Qed.
+Print Assumptions C12_unknown_policy_only_refuted.
+
+Example C12_policy_expressible_example :
+  let r := mkRes "ConfigMap" "hx" [("a:helm.sh/hook", " Pre-Install ,POST-INSTALL"); ("a:helm.sh/hook-delete-policy", "foo, Hook-Succeeded ");
+                                   ("a:helm.sh/hook-weight", "010")] in
+  exists h, doc_hook r = Some h /\ policy_expressible (Classify.hk_delete h) = true /\
+    hook_of_doc r = [mkHook r [PreInstall; PostInstall] 10 [HookSucceeded]].
+Proof. exact policy_expressible_example. Qed.
+Print Assumptions C12_policy_expressible_example.
+
+(* outputLogsByPolicy: logs are fetched exactly for Job / Pod hooks that list the policy *)
+Theorem C12_output_logs :
+  forall kind name log p sel,
+    output_logs_by_policy kind name log p = Some sel <->
+    In p log /\ ((kind = "Job" /\ sel = LogByLabel ("job-name=" ++ name))
+                 \/ (kind = "Pod" /\ sel = LogByField ("metadata.name=" ++ name))).
+Proof. exact output_logs_spec. Qed.
+Print Assumptions C12_output_logs.
+
+(* C12_order restated from the strings: for every chart (hook documents), every event and EVERY
+   execution of execHook, the hook resources are created in ascending order of the decimal
+   weight their annotation spells (0 when it is not a decimal integer within int), ties by
+   name; each is a hook document of the chart naming the event; and when the event completes
+   every such document was created once per mention of the event *)
+Theorem C12_order_from_annotations :
+  forall docs rl ev tr b,
+    hooks rl = hooks_of_docs docs ->
+    exec (exec_hook rl ev) tr b ->
+    StronglySorted doc_le (created (cwview tr))
+    /\ Forall (fun r => In r docs /\ exists h, doc_hook r = Some h /\ In (event_str ev) (Classify.hk_events h))
+              (created (cwview tr))
+    /\ (b = true ->
+        Permutation (created (cwview tr))
+          (flat_map (fun r => match doc_hook r with
+                              | Some h => repeat r (count_occ string_dec (Classify.hk_events h) (event_str ev))
+                              | None => []
+                              end) docs)).
+Proof. exact order_from_annotations. Qed.
+Print Assumptions C12_order_from_annotations.
+
+(* zero-padded and prefixed weights, mixed-case events, a document dropped for an unknown event *)
+Example C12_padded_order :
+  map h_name (sort_hooks (hooks_for PreInstall (hooks_of_docs pad_docs))) = ["hd"; "hc"; "hb"; "ha"]
+  /\ map h_weight (sort_hooks (hooks_for PreInstall (hooks_of_docs pad_docs))) = [0; 8; 9; 10]%Z.
+Proof. exact pad_order. Qed.
+Print Assumptions C12_padded_order.
